@@ -478,7 +478,7 @@ def fd_case(draw):
     if draw(st.integers(0, 2)) == 0:
         # values a hair below / above a multiple of the divisor: fractions far below 1 ulp of the count
         p["frac"] = [draw(st.sampled_from([-1e-17, 1e-17, -5e-324, 5e-324, -(2.0**-60), 2.0**-60, -1e-5, 0.0, -(2.0**-14)])) for _ in p["frac"]]
-    dkind = draw(st.sampled_from(["qcycle", "qcycle", "phase", "qarr", "qdeg", "qhourangle", "qarcmin"]))
+    dkind = draw(st.sampled_from(["qcycle", "qcycle", "phase", "qarr", "qdeg", "qhourangle", "qarcmin", "phase_two_part"]))
     d = draw(st.sampled_from([1.0, 0.5, 0.25, 2.0, 3.0, 0.125, 7.0, 1.5, -1.0, -0.5, 10.0, 1024.0, 0.1, 1 / 3, 2.0**-10]))
     if draw(st.integers(0, 3)) == 0:
         # dividends a hair off a multiple of the divisor: m*d + tiny, |tiny| between 2^-52 and an ulp of d (and beyond)
@@ -494,7 +494,12 @@ def fd_case(draw):
     else:
         dkind = "qcycle" if dkind == "qarr" else dkind
         dv = [d]
-    return {"p": p, "dkind": dkind, "d": dv, "op": draw(st.sampled_from(["floordiv", "mod", "divmod", "np_divmod", "imod", "rem_out_self", "rem_out_other", "divmod_out_self"]))}
+    out = {"p": p, "dkind": dkind, "d": dv, "op": draw(st.sampled_from(["floordiv", "mod", "divmod", "np_divmod", "imod", "rem_out_self", "rem_out_other", "divmod_out_self"]))}
+    if dkind == "phase_two_part":
+        # a divisor that needs both of its parts: a large count plus a fraction (one double holds 2^30 + 0.3 to 2e-7 only)
+        out["d"] = [float(draw(st.sampled_from([-1, 1])) * 2.0 ** draw(st.integers(20, 40)))]
+        out["dfrac"] = draw(st.sampled_from([0.3, -0.3, 0.1234567, 1e-9, -0.4999, 0.25]))
+    return out
 
 
 def run_fd(case, stt):
@@ -516,11 +521,13 @@ def run_fd(case, stt):
             case = dict(case, dkind="qcycle")
     elif case["dkind"] == "phase":
         d = pb.Phase(dv[0])
+    elif case["dkind"] == "phase_two_part":
+        d = pb.Phase(dv[0], case["dfrac"])
     elif case["dkind"] == "qarr":
         d = np.array(dv).reshape(ps["shape"]) * u.cycle
     else:
         d = dv[0] * u.cycle
-    D = bcast([F(x) for x in dv], [] if len(dv) == 1 else ps["shape"], tuple(ps["shape"]))
+    D = bcast([F(x) + F(case.get("dfrac", 0.0)) for x in dv], [] if len(dv) == 1 else ps["shape"], tuple(ps["shape"]))
     op = case["op"]
     what = "phase %s %s" % (op, case["dkind"])
     with lib(what):
